@@ -55,16 +55,16 @@ def D16Inv (n : Nat) (s : State Toy.Obj) : Prop :=
   ∀ kf ∈ s.fdtReceivers, kf.1 < n ∧ kf.2.st = .receiving
 
 /-- a packet that leaves its instance in state `Receiving` -/
-theorem pushFdtObj_receiving {σ : Type} (I : ObjIface σ) (s : State σ) (p : Pkt) (now : Int) (ans : FdtAns)
+theorem pushFdtObjP_receiving {σ : Type} (I : ObjIface σ) (s : State σ) (p : Pkt) (now : Int) (ans : FdtAns)
     (id : Nat) (hid : p.fdtId = some id)
     (hgate : ¬ (s.cfg.receiveOnce = true ∧ s.fdtCurrent.any (fun f => decide (f.fdtId = id)) = true))
-    (hst0 : (fdtEntry I s id).2.st = .receiving)
-    (hst1 : ((fdtEntry I s id).2.push I p now ans).st = .receiving) :
-    pushFdtObj I s p now ans =
-      .ok ({ (fdtEntry I s id).1 with
-              fdtReceivers := ainsert id ((fdtEntry I s id).2.push I p now ans) (fdtEntry I s id).1.fdtReceivers },
+    (hst0 : (fdtEntry I s id p).2.st = .receiving)
+    (hst1 : ((fdtEntry I s id p).2.push I p now ans).st = .receiving) :
+    pushFdtObj' I s p now ans =
+      .ok ({ (fdtEntry I s id p).1 with
+              fdtReceivers := ainsert id ((fdtEntry I s id p).2.push I p now ans) (fdtEntry I s id p).1.fdtReceivers },
            .ok, []) := by
-  unfold pushFdtObj
+  unfold pushFdtObj'
   rw [hid]
   simp only []
   rw [if_neg hgate, if_neg (by rw [hst0]; simp), if_neg (by rw [hst1]; simp)]
